@@ -817,51 +817,45 @@ def detection(ctx, rep):
                  'idx_out holds exactly that language\'s 16 indices and *lang_out that language -, MULT_LANG iff two or more matched (whatever the '
                  'indices are), ERR_LANG iff none matched with idx_out and *lang_out untouched; every registered language is tried; the temporary '
                  'index array is wiped on every exit; a NULL lang_out is not written through')
-        ls, calls = _search_summary(None, 'lang')
-        I = mk_interp(P, extra={'lang_search': ls}); I.budget = 20000; I.max_steps = 4000000
-        st = State()
-        outs = I.run(f, setup(I, st), st)
-        rep.info['detection_partitions'] = len(outs)
-        tried = sorted(set(c[0] for c in calls))
-        rep.check(tried == sorted(langs), 'every registered language is searched (%d)' % len(langs), w, f.name, detail={'searched': tried, 'registered': sorted(langs)},
-                  sample={'languages_tried': len(tried)}, key='DETECT|all-languages')
-        nchk = 0
-        for o in outs:
-            C = o.state.cons
-            M = {ln: C.reduce(I.V.bit('M[%s]' % ln)) for ln in langs}
-            decided = [ln for ln in langs if M[ln] == 1]
-            undec = [ln for ln in langs if not is_const(M[ln])]
-            rv = inv.get(o.ret.concrete(), str(o.ret))
-            cons = 'phrase_decode partition matched=%s undecided=%d' % ([x.replace('polyseed_lang_', '') for x in decided], len(undec))
-            nchk += 1
-            if len(decided) >= 2:
-                rep.check(rv == 'POLYSEED_ERR_MULT_LANG', 'two or more matching languages -> MULT_LANG', w, cons, detail=rv, sample={'matched': decided, 'status': rv} if nchk < 4 else None,
-                          key='DETECT|mult|%s' % '+'.join(sorted(decided)[:2]))
-            elif undec:
-                rep.fail('the outcome is decided only after every language has been tried (no early exit while fewer than two languages matched)', w, cons,
-                         detail={'status': rv, 'languages_not_tried': undec[:4]}, key='DETECT|early|%s' % rv)
-            elif len(decided) == 0:
-                ok = rv == 'POLYSEED_ERR_LANG'
-                unt = all(get(o.state, 'idx_out', 8 * k, 8).bits == I.V.bv('old%d' % k, 64).bits for k in range(16))
-                lo = I.load(o.state, Ptr('lang_out', 0), 8, f.blocks[0][0], as_ptr=True)
-                rep.check(ok and unt and lo == Tag('old-lang'), 'no matching language -> ERR_LANG, outputs untouched', w, cons, detail=rv, key='DETECT|none')
-            else:
-                ln = decided[0]
-                ok = rv == 'POLYSEED_OK'
-                idx_ok = all([C.reduce(b) for b in get(o.state, 'idx_out', 8 * k, 8).bits] == [C.reduce(b) for b in I.V.bv('r[%s][%s]' % (ln, k), GF_BITS).bits] + [0] * 53 for k in range(16))
-                lo = I.load(o.state, Ptr('lang_out', 0), 8, f.blocks[0][0], as_ptr=True)
-                rep.check(ok and idx_ok and lo == Ptr('g:' + ln, 0), 'exactly one matching language (%s) -> OK with its indices and its table' % ln, w, cons,
-                          detail={'status': rv, 'indices_ok': idx_ok, 'lang_out': repr(lo)}, sample={'matched': ln, 'status': rv} if nchk < 30 and ln.endswith('en') else None,
-                          key='DETECT|one|%s' % ln)
-            wz = [t for t in o.state.trace if t[0] == 'memzero' and ':idx:' in t[1]]
-            rep.check(bool(wz), 'temporary index array wiped on this exit', w, cons, key='DETECT|wipe')
-        # NULL lang_out
-        ls2, _ = _search_summary(None, 'lang')
-        I2 = mk_interp(P, extra={'lang_search': ls2}); I2.budget = 20000; I2.max_steps = 4000000
-        st2 = State()
-        outs2 = I2.run(f, setup(I2, st2, lang_out=False), st2)
-        rep.check(len(outs2) == len(outs) and all(o.state.mem.objs['lang_out'] == st2.mem.objs['lang_out'] for o in outs2), 'lang_out == NULL is accepted and nothing is written through it', w, f.name, key='DETECT|null-lang-out')
-
+        for with_lang_out in (True, False):
+            ls, calls = _search_summary(None, 'lang')
+            I = mk_interp(P, extra={'lang_search': ls}); I.budget = 20000; I.max_steps = 4000000
+            st = State()
+            outs = I.run(f, setup(I, st, lang_out=with_lang_out), st)
+            rep.info['detection_partitions'] = len(outs)
+            tried = sorted(set(c[0] for c in calls))
+            rep.check(tried == sorted(langs), 'every registered language is searched (%d)' % len(langs), w, f.name, detail={'searched': tried, 'registered': sorted(langs)},
+                      sample={'languages_tried': len(tried)}, key='DETECT|all-languages')
+            nchk = 0
+            for o in outs:
+                C = o.state.cons
+                M = {ln: C.reduce(I.V.bit('M[%s]' % ln)) for ln in langs}
+                decided = [ln for ln in langs if M[ln] == 1]
+                undec = [ln for ln in langs if not is_const(M[ln])]
+                rv = inv.get(o.ret.concrete(), str(o.ret))
+                cons = 'phrase_decode partition matched=%s undecided=%d' % ([x.replace('polyseed_lang_', '') for x in decided], len(undec))
+                nchk += 1
+                if len(decided) >= 2:
+                    rep.check(rv == 'POLYSEED_ERR_MULT_LANG', 'two or more matching languages -> MULT_LANG', w, cons, detail=rv, sample={'matched': decided, 'status': rv} if nchk < 4 else None,
+                              key='DETECT|mult|%s|%s' % ('+'.join(sorted(decided)[:2]), with_lang_out))
+                elif undec:
+                    rep.fail('the outcome is decided only after every language has been tried (no early exit while fewer than two languages matched)', w, cons,
+                             detail={'status': rv, 'languages_not_tried': undec[:4]}, key='DETECT|early|%s|%s' % (rv, with_lang_out))
+                elif len(decided) == 0:
+                    ok = rv == 'POLYSEED_ERR_LANG'
+                    unt = all(get(o.state, 'idx_out', 8 * k, 8).bits == I.V.bv('old%d' % k, 64).bits for k in range(16))
+                    lo = I.load(o.state, Ptr('lang_out', 0), 8, f.blocks[0][0], as_ptr=True)
+                    rep.check(ok and unt and lo == Tag('old-lang'), 'no matching language -> ERR_LANG, outputs untouched (lang_out %s)' % ('given' if with_lang_out else 'NULL'), w, cons, detail=rv, key='DETECT|none|%s' % with_lang_out)
+                else:
+                    ln = decided[0]
+                    ok = rv == 'POLYSEED_OK'
+                    idx_ok = all([C.reduce(b) for b in get(o.state, 'idx_out', 8 * k, 8).bits] == [C.reduce(b) for b in I.V.bv('r[%s][%s]' % (ln, k), GF_BITS).bits] + [0] * 53 for k in range(16))
+                    lo = I.load(o.state, Ptr('lang_out', 0), 8, f.blocks[0][0], as_ptr=True)
+                    rep.check(ok and idx_ok and lo == (Ptr('g:' + ln, 0) if with_lang_out else Tag('old-lang')), 'exactly one matching language (%s) -> OK with its indices and its table (lang_out %s)' % (ln, 'given' if with_lang_out else 'NULL: not written'), w, cons,
+                              detail={'status': rv, 'indices_ok': idx_ok, 'lang_out': repr(lo)}, sample={'matched': ln, 'status': rv} if nchk < 30 and ln.endswith('en') else None,
+                              key='DETECT|one|%s|%s' % (ln, with_lang_out))
+                wz = [t for t in o.state.trace if t[0] == 'memzero' and ':idx:' in t[1]]
+                rep.check(bool(wz), 'temporary index array wiped on this exit', w, cons, key='DETECT|wipe')
         rep.rule('DETECT-WORD', 'a language counts as matching iff all 16 lookups succeed: with one outcome bit per word for one language (all others not '
                  'matching) the result is OK iff all 16 bits are set, and the first failing lookup ends that language\'s attempt; the same per-language '
                  'search (lang_search(lang, phrase[wi], get_comparer(lang))) is used by polyseed_phrase_decode_explicit, which returns OK with the 16 '
